@@ -1834,6 +1834,20 @@ impl Element {
                         }
                         overall_version_mask &= value_version_mask;
                     }
+                } else {
+                    // the element type used in the target version does not have this attribute at all;
+                    // report the versions in which the current element type allows it
+                    let version_mask = element
+                        .elemtype
+                        .find_attribute_spec(attribute.attrname)
+                        .map_or(0, |spec| spec.version)
+                        & !(target_version as u32);
+                    overall_version_mask &= version_mask;
+                    compat_errors.push(CompatibilityError::IncompatibleAttribute {
+                        element: self.clone(),
+                        attribute: attribute.attrname,
+                        version_mask,
+                    });
                 }
             }
 
